@@ -50,6 +50,7 @@ func main() {
 	kBER(r)
 	kMarker(r)
 	kFlateParams(r)
+	kCMap4(r)
 	fmt.Fprintf(os.Stderr, "K all %v\n", time.Since(tk))
 	search(r)
 }
@@ -626,6 +627,8 @@ func search(r *vh.Run) {
 		addJob("gen-"+g.name, g.data, ops, "decodeParmsDocs: "+g.name, "")
 		r.Count("input:decodeparms")
 	}
+	// 2f. fonts: structured TrueType mutations (fontmut.go)
+	fontJobs(r, repo, addJob)
 	// 2c. signatures: BER/CMS payloads over the /Contents of the shipped signed samples (sigmut.go)
 	ts := time.Now()
 	sigJobs(r, repo, addJob)
